@@ -4,22 +4,6 @@ namespace DS.Req
 
 variable {ρ : Type}
 
-/-- what every operation does to the coin cursor: the trace only grows, the supply is untouched, |trace| = cursor -/
-structure AccMono (a b : Acc) : Prop where
-  pre : a.lv <+: b.lv
-  coins : b.coins = a.coins
-  lvlen : a.lv.length = a.used → b.lv.length = b.used
-  odd : b.oddConst = false → a.oddConst = false
-
-theorem AccMono.refl (a : Acc) : AccMono a a := ⟨List.prefix_refl _, rfl, fun h => h, fun h => h⟩
-theorem AccMono.trans {a b c : Acc} (h1 : AccMono a b) (h2 : AccMono b c) : AccMono a c :=
-  ⟨h1.pre.trans h2.pre, h2.coins.trans h1.coins, fun h => h2.lvlen (h1.lvlen h), fun h => h1.odd (h2.odd h)⟩
-
-theorem compress_mono (T : Tun) (F : SecFns ρ) (s : Sketch ρ) (a : Acc) : AccMono a (s.compress T F a).2 := by
-  have := compressLoop_acc T F s.hra s.k (sumItems s.compactors + s.compactors.length + 1) 0 s.compactors
-    { retained := s.numRetained, maxNom := s.maxNomSize } a
-  exact ⟨this.1, this.2.1, this.2.2.1, this.2.2.2⟩
-
 theorem update_mono (T : Tun) (F : SecFns ρ) (s : Sketch ρ) (x : Int) (a : Acc) : AccMono a (s.update T F x a).2 := by
   simp only [Sketch.update]; split
   · exact compress_mono T F _ a
@@ -34,14 +18,14 @@ theorem merge_mono (T : Tun) (F : SecFns ρ) (s o : Sketch ρ) (a : Acc) (res : 
     · have : res = (s, a) := by simpa using h.symm
       subst this; exact AccMono.refl a
     · split at h
-      · have : res = (s.mergePre T F o).compress T F a := by simpa using h.symm
-        subst this; exact compress_mono T F _ a
-      · have : res = (s.mergePre T F o, a) := by simpa using h.symm
-        subst this; exact AccMono.refl a
+      · have : res = (s.mergePre T F o a).1.compress T F (s.mergePre T F o a).2 := by simpa using h.symm
+        subst this; exact (mergePre_mono T F s o a).trans (compress_mono T F _ _)
+      · have : res = s.mergePre T F o a := by simpa using h.symm
+        subst this; exact mergePre_mono T F s o a
 
 theorem stepOp_mono (T : Tun) (F : SecFns ρ) (st : Store ρ) (a : Acc) (op : Op) : AccMono a (stepOp T F st a op).2 := by
   cases op with
-  | new id k hra => exact AccMono.refl a
+  | new id k hra => exact drawIf_mono a _ _
   | upd id x =>
     simp only [stepOp]; split
     · exact update_mono T F _ x a
@@ -88,7 +72,23 @@ theorem stepOp_rel2 {T : Tun} (hT : TunOK T) (F : SecFns ρ) (L : List Nat) (hh 
     (hL : (stepOp T F st a op).2.lv <+: L) (hodd : ∀ h0, hh = some h0 → (stepOp T F st a op).2.oddConst = false) :
     StoreRel2 hh (stepOp T F st a op).1 (stepOp T F st' a' op).1 ∧ AccRel L hh (stepOp T F st a op).2 (stepOp T F st' a' op).2 := by
   cases op with
-  | new id k hra => exact ⟨ALRel_set r id ⟨new_rel hh T F k hra, fun p h0 _ => new_bal T F k hra p h0⟩, ra⟩
+  | new id k hra =>
+    simp only [stepOp] at hL ⊢
+    have hLu : T.initCoinRandom = true → L[a.used]? = some 0 := by
+      intro hf
+      have : (a.drawIf T.initCoinRandom 0).lv = a.lv ++ [0] := (drawIf_acc a _ _).2.2.2.2.1 hf
+      rw [← ra.lvlen]; exact prefix_get a.lv 0 L (by rw [← this]; exact hL)
+    have hpeek' : a'.peek = a'.coins a.used := by simp [Acc.peek, ra.used]
+    have nr := new_rel hh T F k hra a.peek a'.peek
+      (by intro h0 e hl hf
+          rw [hpeek', ra.coins h0 e, hLu hf]
+          have : (some 0 == some h0) = false := by simp; omega
+          simp [this, Acc.peek])
+      (by intro h0 e hl hf
+          rw [hpeek', ra.coins h0 e, hLu hf]
+          have : (some 0 == some h0) = true := by simp; omega
+          simp [this, Acc.peek])
+    exact ⟨ALRel_set r id ⟨nr, fun p h0 _ => new_bal T F k hra a.peek a'.peek p h0⟩, drawIf_AccRel _ _ ra⟩
   | upd id x =>
     simp only [stepOp] at hL hodd ⊢
     rcases get_both hI r id with ⟨h1, h2⟩ | ⟨s, s', h1, h2, hs, hr⟩
@@ -108,10 +108,13 @@ theorem stepOp_rel2 {T : Tun} (hT : TunOK T) (F : SecFns ρ) (L : List Nat) (hh 
       · rcases get_both hI r j with ⟨g1, g2⟩ | ⟨o, o', g1, g2, ho, hro⟩
         · simp only [h1, h2, g1, g2]; exact ⟨r, ra⟩
         · simp only [h1, h2, g1, g2] at hL hodd ⊢
-          rcases merge_rel hT F L hh s s' o o' a a' hs ho hr.1 hro.1 ra with ⟨m1, m2⟩ | ⟨res, res', m1, m2, m3⟩
-          · simp only [m1, m2]; exact ⟨r, ra⟩
-          · simp only [m1, m2] at hL hodd ⊢
-            obtain ⟨q1, q2, q3⟩ := m3 hL
+          obtain ⟨mn, ms⟩ := merge_rel hT F L hh s s' o o' a a' hs ho hr.1 hro.1 ra
+          cases hm : s.merge T F o a with
+          | none => simp only [hm, mn hm]; exact ⟨r, ra⟩
+          | some res =>
+            simp only [hm] at hL hodd
+            obtain ⟨res', m2, q1, q2, q3⟩ := ms res hm hL
+            simp only [hm, m2]
             exact ⟨ALRel_set r i ⟨q1, fun p h0 e => q3 p h0 e (hodd h0 e) (hr.2 p h0 e) (hro.2 p h0 e)⟩, q2⟩
   | copy i j =>
     simp only [stepOp]
